@@ -449,6 +449,14 @@ impl<F: Float> Arithmetic<F> {
     }
 }
 
+#[cfg(stats_ci_verif)]
+impl<F: Float> Arithmetic<F> {
+    /// Verification hook: `((sum, compensation), (sum_sq, compensation), count)`.
+    pub fn verif_parts(&self) -> ((F, F), (F, F), usize) {
+        (self.sum.verif_parts(), self.sum_sq.verif_parts(), self.count)
+    }
+}
+
 impl<F: Float> core::ops::Add for Arithmetic<F> {
     type Output = Self;
 
